@@ -282,7 +282,7 @@ Proof.
   - (* URlike *) cbn [safe]. solve_and.
   - (* UStartsWith *) cbn [safe]. solve_and.
   - (* UEndsWith *) cbn [safe]. solve_and.
-  - (* USubstr *) cbn [safe]. solve_and.
+  - (* USubstr *) cbn [safe]. destruct (c_substr_zero_as_one c && is_zero_start p); solve_and.
   - (* UWhen *) cbn [safe]. auto.
   - (* UCast *) cbn [safe]. auto.
   - (* UAlias *) auto.
